@@ -32,13 +32,13 @@ theorem call_layer_rel (sc : Scope) (bodyArgs : List Name) (body : Tmpl) (mod : 
                    (.seq (.seq (bodyHoist (bodyScope sc body) body) (.prim .getWriter))
                          (.seq (stmts (bodyScope sc body) body) (.ret emptyStr))))), mod⟩
       ((0, ⟨bodyArgs, noFlags, body, .body, mod⟩) :: Spec.callDefsOf mod body) := by
-  have hnd := nodefs_facts body (good_nodefs body (bodyScope sc body) _ _ rfl hg)
+  have hnd := nodefs_facts body (good_nodefs body (bodyScope sc body) _ _ rfl rfl hg)
   intro x
   simp only [collectDefs, isSkips_collect _ (hnd.callDefs _), List.nil_append, hnd.callDefsOf, lookup]
   by_cases hx : x = 0
   · subst hx
     simp only [if_true, OptRel]
-    exact ⟨FunRel.body (bodyScope sc body) bodyArgs body (ownsLoops sc body) mod rfl hg, by simp, by simp⟩
+    exact ⟨FunRel.body (bodyScope sc body) bodyArgs body (ownsLoops sc body) mod rfl rfl hg, by simp, by simp⟩
   · simp [hx, OptRel]
 
 theorem rc_stmt (n : Nat) (ih : ∀ m, m < n + 1 → RC ts k m) : StmtRef ts k (n + 1) := by
